@@ -361,14 +361,17 @@ macro_rules! oc_tables {
         $(
             let n = format!("{}::{}", stringify!($open), stringify!($ov));
             to.rows.push(row(n.clone(), &n, &n, Box::new(|| __verif_into_c_int($open::$ov)), $cty::$oc as c_int, stringify!($oc)));
+            // (signature: the wrapped error; the wrapper delegates to its impl)
+            let inner = format!("{}::{}", stringify!($open), stringify!($ov));
             let n = format!("{}::{}({}::{})", stringify!($ooc), stringify!($wopen), stringify!($open), stringify!($ov));
-            tooc.rows.push(row(n.clone(), &n, &n, Box::new(|| __verif_into_c_int($ooc::$wopen($open::$ov))), $cty::$oc as c_int, stringify!($oc)));
+            tooc.rows.push(row(n.clone(), &n, &inner, Box::new(|| __verif_into_c_int($ooc::$wopen($open::$ov))), $cty::$oc as c_int, stringify!($oc)));
         )*
         $(
             let n = format!("{}::{}", stringify!($create), stringify!($cv));
             tc.rows.push(row(n.clone(), &n, &n, Box::new(|| __verif_into_c_int($create::$cv)), $cty::$cc as c_int, stringify!($cc)));
+            let inner = format!("{}::{}", stringify!($create), stringify!($cv));
             let n = format!("{}::{}({}::{})", stringify!($ooc), stringify!($wcreate), stringify!($create), stringify!($cv));
-            tooc.rows.push(row(n.clone(), &n, &n, Box::new(|| __verif_into_c_int($ooc::$wcreate($create::$cv))), $cty::$cc as c_int, stringify!($cc)));
+            tooc.rows.push(row(n.clone(), &n, &inner, Box::new(|| __verif_into_c_int($ooc::$wcreate($create::$cv))), $cty::$cc as c_int, stringify!($cc)));
         )*
         let n = format!("{}::SystemInFlux", stringify!($ooc));
         tooc.rows.push(row(n.clone(), &n, &n, Box::new(|| __verif_into_c_int($ooc::SystemInFlux)), $cty::SYSTEM_IN_FLUX as c_int, "SYSTEM_IN_FLUX"));
